@@ -5,6 +5,9 @@ VERIF = os.path.dirname(os.path.dirname(os.path.abspath(__file__)))
 
 # id -> (category, technique, text, note, design_ref)
 CHECKS = {
+    'C11': ('exploration', 'generator-knows-the-answer monitoring of the real BasicSolver option parser, hostile strings in exact-size heap buffers under ASan',
+            'Grammar-derived assignment sequences over int/double/string/flag/wildcard options, inline and out-of-line synonyms in random case, all separator forms, quoted strings and name=? queries are distributed over mp_options, <exe>_options, <solver>_options and argv; the final value of every option, the ParseOptions result and the error-handler calls must equal what the generator assigned in the documented source order; hostile strings must terminate with at most an option error.',
+            'the generator\'s bookkeeping is the reference; a recording ErrorHandler is installed so parsing continues after an error', '2/C11'),
     'C08': ('exploration', 'round-trip monitoring of the real NLModel/NLSolver code against an independent matrix-level oracle (exact dyadic arithmetic), under ASan',
             'Random LP/QP/MILP/MIQP matrix models incl. all Hessian entry shapes are written through NLModel::WriteNL / NLSolver::LoadModel, read back into mp::Problem and the recording handler and compared in the caller\'s variable order through the reported permutation (bounds, integrality by NL position, objective and row values at 24 points, warm starts, suffixes, names); a .sol with distinct values per NL position is returned through ReadSolution/Solve and must come back un-permuted with the recomputed objective value.',
             'quadratic part defined as 0.5*sum of given entries (Triangular format: symmetric reading also accepted); mp::Problem/NL reader are the observation channel (monitored separately by C02/C03)', '2/C08'),
